@@ -44,9 +44,15 @@ func (u Unit) Bytes() []byte {
 	out := make([]byte, len(u.Head)+u.N)
 	copy(out, u.Head)
 	b := out[len(u.Head):]
-	x := int(u.Fill)*31 + int(u.Fill>>8)*7
+	// small LCG seeded by Fill: distinct fills give distinct bodies (N >= 4) and no byte is zero
+	st := uint32(u.Fill)*2654435761 + 12345
 	for i := range b {
-		b[i] = byte(1 + (x+i*7+i/251)%255)
+		st = st*1664525 + 1013904223
+		v := byte(st >> 24)
+		if v == 0 {
+			v = 1
+		}
+		b[i] = v
 	}
 	return out
 }
